@@ -18,7 +18,8 @@ Fault plan (stream ``f``): up to two faults, each a triple (kind, a, b):
   5 before round a the stored entry of that round's template is truncated at offset b
   6 before round a the entry is replaced (b: foreign interpreter magic, other
     cache version, garbage, empty, entry of an older source, valid marshal of
-    ANOTHER template under the current checksum but foreign magic)
+    ANOTHER template under the current checksum but foreign magic; 6-8: the header
+    CPython 3.11 / 3.13 / 2.7 running the jinja code under test would write)
   7 memcached client event a misbehaves (b: raise, evict, truncated value, lost set)
 
 A work unit runs its history clean, numbers every syscall event, then
@@ -46,12 +47,16 @@ from sim.tape import Tape, run_seed
 ID = "C27"
 LEVEL = "fault_enumeration"
 RULE = (
-    "work unit = one seeded history (3-10 rounds of load+render / two interleaved loads / modify / clear / restart / sync by 2-3 "
-    "processes sharing one cache directory or one memcached, same or mixed compile-relevant configuration) x fault positions "
+    "work unit = one seeded history (3-10 rounds of load+render / two interleaved loads by two processes / two threads of one process "
+    "sharing one Environment and cache object with a source edit landing mid-load (source-line pre-emption in bccache.py and "
+    "loaders.py) / modify / clear / restart / sync by 2-3 processes sharing one cache directory or one memcached; same "
+    "configuration, one compile-relevant option differing, or only run-time options (undefined type, filter / test / global of "
+    "the same name) differing - the last with no tolerance) x fault positions "
     "measured on its clean run: process crash before/after every syscall event of every load/dump/clear (temp-file creation, "
     "each write, close, replace, remove, listdir, open, read), power loss after every event with per-file prefix truncation and "
     "persisted/undone renames, every error kind at every event, every truncation offset of every stored entry, foreign-magic / "
-    "other-version / garbage / empty / stale / foreign-code entries, memcached get/set raising, truncating, losing, evicting; "
+    "other-version / garbage / empty / stale / foreign-code entries and headers as CPython 3.11 / 3.13 / 2.7 running the code under test "
+    "would write them, memcached get/set raising, truncating, losing, evicting; "
     "thorough = all positions per history, quick = a seeded sample. Non-trivial = a fault fired and a later load was checked; "
     "distinct = digest(history, configs, fired faults, schedule)."
 )
@@ -84,7 +89,57 @@ def setup() -> None:
 
     F.install()
     A.install_policy().factory = lambda: A.SimLoop(Tape(streams={}))
+    # threads of ONE process sharing one bytecode-cache object ("load2t" rounds) are pre-empted at source lines of
+    # every function of bccache.py / loaders.py (second monitoring tool, on only inside those rounds)
+    import jinja2.bccache as B
+    import jinja2.loaders as L
+    import jinja2.utils as U
+
+    T.install_deep(T.module_functions(B) + T.module_functions(L))
+    U.Lock = T.SimLock
+    T.neutralise_real_locks()
     _setup_done = True
+
+
+_FOREIGN: list | None = None
+
+
+def foreign_magics() -> list:
+    """bc_magic as OTHER interpreter versions running the same jinja code would compute it: jinja2/bccache.py is
+    executed again as a scratch module while sys.version_info / sys.hexversion report another CPython (3.11, 3.13,
+    2.7).  Entries carrying such a header are what a cache directory shared between interpreters contains."""
+    global _FOREIGN
+    if _FOREIGN is None:
+        import importlib.util
+        import sys
+
+        import jinja2.bccache as B
+
+        class VI(tuple):
+            major = property(lambda self: self[0])
+            minor = property(lambda self: self[1])
+            micro = property(lambda self: self[2])
+            releaselevel = property(lambda self: self[3])
+            serial = property(lambda self: self[4])
+
+        res = []
+        for vi, hexv in (((3, 11, 4, "final", 0), 0x030B04F0), ((3, 13, 0, "final", 0), 0x030D00F0), ((2, 7, 18, "final", 0), 0x020712F0)):
+            real = (sys.version_info, sys.hexversion)
+            try:
+                spec = importlib.util.spec_from_file_location("jinja2._verif_foreign_bccache", B.__file__)
+                m = importlib.util.module_from_spec(spec)
+                sys.version_info, sys.hexversion = VI(vi), hexv
+                try:
+                    spec.loader.exec_module(m)
+                finally:
+                    sys.version_info, sys.hexversion = real
+                magic = getattr(m, "bc_magic", None)
+                if isinstance(magic, bytes):
+                    res.append(magic)
+            except Exception:
+                sys.version_info, sys.hexversion = real
+        _FOREIGN = res
+    return _FOREIGN
 
 
 class Obj:
@@ -98,6 +153,11 @@ def _f(x):
 
 
 DATA = {"s": "<&>", "f": _f, "o": Obj(), "l": [1, 2, 3]}
+# run-time-only configuration: looked up in the environment when the template RUNS, so environments that differ
+# only in these may share cache entries and must still each render with their own (no tolerance, no classifier)
+RT_FILTERS = [lambda v: f"f0({v})", lambda v: f"f1[{v}]", lambda v: f"f2<{v}>"]
+RT_TESTS = [lambda v: True, lambda v: False, lambda v: len(str(v)) == 3]
+TAIL = "{{ missing }}|{{ s|rtf }}|{% if s is rtt %}T{% else %}F{% endif %}|{{ rtg }}\n"
 
 
 def source(name: str, v: int, variant: int) -> str:
@@ -107,7 +167,7 @@ def source(name: str, v: int, variant: int) -> str:
         "{% macro m(a) %}({{ a }}{{ s }}){% endmacro %}  {% set y = f(2) %}\n{{ m(y) }}{{ o._p|default('hidden') }}\n",
         "{{ s }}\n",
     ][variant % 4]
-    return f"{name} v{v}\n{body}"
+    return f"{name} v{v}\n{body}{TAIL}"
 
 
 def cfg_key(cfg: dict) -> tuple:
@@ -119,11 +179,22 @@ def make_env(cfg: dict, loader, bcc):
     from jinja2.sandbox import SandboxedEnvironment
 
     cls = SandboxedEnvironment if cfg["sandboxed"] else jinja2.Environment
-    return cls(
+    und = (jinja2.Undefined, jinja2.StrictUndefined, jinja2.DebugUndefined, jinja2.ChainableUndefined)[cfg.get("undefined", 0)]
+    env = cls(
         loader=loader, bytecode_cache=bcc, cache_size=0, autoescape=cfg["autoescape"], trim_blocks=cfg["trim_blocks"],
         lstrip_blocks=cfg["lstrip_blocks"], enable_async=cfg["enable_async"], optimized=cfg["optimized"],
-        keep_trailing_newline=cfg["keep_trailing_newline"],
+        keep_trailing_newline=cfg["keep_trailing_newline"], undefined=und,
     )
+    rt = cfg.get("rt", 0)
+    env.filters["rtf"] = RT_FILTERS[rt]
+    env.tests["rtt"] = RT_TESTS[rt]
+    env.globals["rtg"] = f"g{rt}"
+    return env
+
+
+def compile_part(cfg) -> tuple:
+    d = dict(cfg)
+    return tuple((o, d[o]) for o in OPTIONS)
 
 
 def _render_key(fn):
@@ -187,16 +258,25 @@ def run(tape: Tape) -> Outcome:
 
     out = Outcome()
     backend = "memcached" if tape.draw(4) == 3 else "fs"
-    mixed = tape.draw(3) == 2
+    cfgmode = (0, 0, 1, 2)[tape.draw(4)]  # same configuration / one compile-relevant option differs / only run-time options differ
+    mixed = cfgmode == 1
+    mode_name = ("same-config", "mixed-config", "mixed-runtime-config")[cfgmode]
     nproc = 2 + tape.draw(2)
     base = {o: bool(tape.draw(2)) for o in OPTIONS}
     base["enable_async"] = base["enable_async"] and tape.draw(2) == 1
+    base["undefined"] = tape.weighted([5, 1, 1, 1])
+    base["rt"] = tape.draw(3)
     cfgs = []
     for p in range(nproc):
         c = dict(base)
         if mixed and p > 0:
             o = OPTIONS[tape.draw(len(OPTIONS))]
             c[o] = not c[o]
+        if cfgmode == 2 and p > 0:
+            if tape.draw(2):
+                c["undefined"] = (c["undefined"] + 1 + tape.draw(3)) % 4
+            else:
+                c["rt"] = (c["rt"] + 1 + tape.draw(2)) % 3
         cfgs.append(c)
     names = ("a", "b")[: 1 + tape.draw(2)]
     variant = {n: tape.draw(4) for n in names}
@@ -206,7 +286,7 @@ def run(tape: Tape) -> Outcome:
     nrounds = 3 + tape.draw(8)
     rounds = []
     for _ in range(nrounds):
-        k = tape.weighted([8, 3, 3, 1, 1, 1])
+        k = tape.weighted([8, 3, 3, 1, 1, 1, 2])
         if k == 0:
             rounds.append(("load", tape.draw(nproc), tape.pick(names)))
         elif k == 1:
@@ -219,6 +299,11 @@ def run(tape: Tape) -> Outcome:
             rounds.append(("clear", tape.draw(nproc)))
         elif k == 4:
             rounds.append(("restart", tape.draw(nproc)))
+        elif k == 6:
+            # two threads of one process (one Environment, one bytecode-cache object), optionally with a source edit
+            # landing while they load
+            rounds.append(("load2t", tape.draw(nproc), tape.pick(names), tape.pick(names),
+                           tape.pick(names) if tape.draw(3) else None, tape.weighted([3, 1])))
         else:
             rounds.append(("sync",))
     # fault plan
@@ -336,10 +421,13 @@ def run(tape: Tape) -> Outcome:
         r = _render_key(lambda: env.get_template(n).render(**DATA))
         return r, src, fired0
 
-    def judge(p: Proc, n: str, r, src, fired0, ri: int) -> bool:
-        """True = continue; False = violation recorded."""
+    def judge(p: Proc, n: str, r, src, fired0, ri: int, alt_src=None) -> bool:
+        """True = continue; False = violation recorded.  alt_src: the source after an edit that landed while this load
+        was in flight (either version is then a correct answer for THIS load; later loads are strict again)."""
         want = reference(p.cfg, src)
         got = r[:2]
+        if alt_src is not None and got != want and got == reference(p.cfg, alt_src):
+            want = got
         fired_here = (fs.fired + mc.fired)[fired0:] if False else None
         nfired_now = len(fs.fired) + len(mc.fired)
         ctx = "after-fault" if state["any_fault"] else "fault-free"
@@ -359,7 +447,7 @@ def run(tape: Tape) -> Outcome:
         # KF-C27-1: served an entry written under another configuration
         writers = [w for (_path, w, _ino) in fs.reads.get(p.pid, [])] if backend == "fs" else [w for (_k, w) in mc.reads.get(p.pid, [])]
         for w in writers:
-            if w is not None and w != cfg_key(p.cfg):
+            if w is not None and compile_part(w) != compile_part(p.cfg):
                 alt = cross_config(p.cfg, dict(w), src, n)
                 if alt == got:
                     out.known = "KF-C27-1"
@@ -370,7 +458,7 @@ def run(tape: Tape) -> Outcome:
             first = got[1].split("\n", 1)[0]
             if first != src.split("\n", 1)[0] and first.startswith(n + " v"):
                 what = ("stale-code",)
-        out.violate((*what, backend, "mixed-config" if mixed else "same-config", ctx), round=ri, process=p.idx, template=n,
+        out.violate((*what, backend, mode_name, ctx), round=ri, process=p.idx, template=n,
                     got=got, expected=want, steps=steps_dec)
         return False
 
@@ -412,7 +500,7 @@ def run(tape: Tape) -> Outcome:
                             out.count("damage_truncate_entry")
                             steps_dec.append(["damage", "truncate", n, j, len(cur)])
                     else:
-                        v = b % 6
+                        v = b % 9
                         chk = pickle.dumps(FileSystemBytecodeCache(CACHE_DIR).get_source_checksum(store[n]), 2)
                         other_code = marshal.dumps(compile("raise SystemError('foreign code executed')", "<foreign>", "exec"))
                         if v == 0:
@@ -425,6 +513,11 @@ def run(tape: Tape) -> Outcome:
                             new = b""
                         elif v == 4:
                             new = older_entries.get(n)
+                        elif v >= 6:
+                            # header as another interpreter version running THIS jinja code writes it; same name,
+                            # same source checksum, that interpreter's (here: some other) code
+                            fm = foreign_magics()
+                            new = (fm[(v - 6) % len(fm)] + chk + other_code) if fm else None
                         else:
                             new = bc_magic + chk + b"\x00garbage-not-marshal"
                         if new is not None:
@@ -512,6 +605,84 @@ def run(tape: Tape) -> Outcome:
                     _after_crash(fs, procs, power_loss, out)
                 if not ok:
                     break
+            elif rd[0] == "load2t":
+                p = procs[rd[1]]
+                if p.pid in fs.dead:
+                    start(p)
+                    steps_dec.append(["auto-restart", p.idx])
+                sched = T.Sched(tape, step_cap=400_000, wall_cap=30.0, line_level=True)
+                sched.fs = fs
+                fs.sched = sched
+                results = {}
+                before_src = dict(store)
+
+                def tbody(k, n, p=p):
+                    def fn():
+                        try:
+                            results[k] = do_load(p, n)
+                        except F.SimCrash:
+                            results[k] = "CRASHED"
+                    return fn
+
+                def wbody(n=rd[4], subtle=rd[5]):
+                    sched.yield_point("sys")
+                    cur_ = entry_bytes(n)
+                    if cur_:
+                        older_entries[n] = cur_
+                    bump(n, subtle)
+
+                ths = [sched.spawn(tbody(0, rd[2]), f"P{p.idx}.t0"), sched.spawn(tbody(1, rd[3]), f"P{p.idx}.t1")]
+                if rd[4] is not None:
+                    ths.append(sched.spawn(wbody, "editor"))
+                for th in ths[:2]:
+                    th.pid_ = p.pid
+                plan = []
+                for _ in range(tape.draw(4, "s")):
+                    plan.append((tape.draw(len(ths), "s"), 1 + tape.draw(160, "s"), tape.draw(2, "s")))
+                sched.plan(plan)
+                T.set_deep(True)
+                try:
+                    sched.run()
+                finally:
+                    T.set_deep(False)
+                    fs.sched = None
+                if sched.abort == "deadlock":
+                    out.violate(("deadlock-in-process", backend, mode_name), round=ri, steps=steps_dec)
+                    break
+                if sched.abort:
+                    raise T.HarnessError("thread round aborted: " + sched.abort)
+                for st in sched.threads:
+                    if st.exc is not None:
+                        raise T.HarnessError(f"thread raised {st.exc!r}")
+                sched_traces.append(sched.trace)
+                out.count("thread_rounds")
+                out.count("thread_round_switches", sched.preempts_fired)
+                if rd[4] is not None:
+                    out.count("thread_rounds_with_source_edit")
+                    steps_dec.append(["modify||", rd[4], version[rd[4]], "subtle-edit" if rd[5] else "new-version"])
+                if len(fs.fired) + len(mc.fired) > fired_before:
+                    state["any_fault"] = True
+                crashed = False
+                ok = True
+                for k, n in ((0, rd[2]), (1, rd[3])):
+                    res = results.get(k)
+                    if res == "CRASHED" or res is None:
+                        crashed = True
+                        steps_dec.append(["load", p.idx, n, "CRASHED"])
+                        continue
+                    r, src, fired0 = res
+                    steps_dec.append(["load|t|", p.idx, n, r[0]])
+                    alt = None
+                    if rd[4] == n:
+                        alt = store[n] if src == before_src[n] else before_src[n]
+                    if not judge(p, n, r, src, fired_before, ri, alt_src=alt):
+                        ok = False
+                        break
+                if crashed:
+                    state["any_fault"] = True
+                    _after_crash(fs, procs, power_loss, out)
+                if not ok:
+                    break
             elif rd[0] == "modify":
                 n = rd[1]
                 cur = entry_bytes(n)
@@ -561,10 +732,10 @@ def run(tape: Tape) -> Outcome:
         out.count("memcached_fault_" + f_[1] + "_" + f_[2])
     out.count("histories")
     out.count("backend_" + backend)
-    out.count("config_" + ("mixed" if mixed else "same"))
+    out.count("config_" + mode_name)
     out.count("syscall_events", fs.nevents)
     out.decoded = {
-        "backend": backend, "mixed_config": mixed, "configs": cfgs, "write_buffer": write_buffer,
+        "backend": backend, "config_mode": mode_name, "configs": cfgs, "write_buffer": write_buffer,
         "loader": "FunctionLoader (fresh source string per load)" if fresh_strings else "DictLoader",
         "ignore_memcache_errors": ignore_mc_errors if backend == "memcached" else None,
         "rounds": [list(r) for r in rounds], "fault_plan(kind,a,b)": [list(f_) for f_ in faults],
@@ -615,7 +786,7 @@ def unit(index: int, seed: int, tier: str):
         if ln and ln > 0:
             for j in range(ln):
                 plans.append([1, 5, ri, j])
-        for v in range(6):
+        for v in range(9):
             plans.append([1, 6, ri, v])
     for a in range(1, n_mc + 1):
         for b in range(4):
